@@ -67,6 +67,14 @@ func c11() {
 		if i%7 != 5 {
 			cc.NNPCase.Prior = ""
 		}
+		sameBefore := i%7 != 5 && !pl.unpriv && pl.nnp && !pl.strace && (pl.mode == "plain" || pl.mode == "gosched")
+		if sameBefore {
+			// a history: the very same filter has been loaded before without asking for no_new_privs (privileged caller); the
+			// caller keeps its goroutine on one thread, so the thread that asks is the thread that is looked at afterwards
+			cc.NNPCase.Prior = "same-without-nnp"
+			cc.NNPCase.CallerLocked = true
+			run.Count("children_that_loaded_the_same_filter_before_without_nnp", 1)
+		}
 		cc.Env = vlib.RuntimeKnobsGC[(i/3)%len(vlib.RuntimeKnobsGC)]
 		if i%6 == 1 && pl.mode != "busy" { // CPU-bound goroutines on few Ps would only starve the collecting goroutine
 			cc.GCSpray = 1 + (i/6)%3
@@ -228,6 +236,14 @@ func c11() {
 					return
 				}
 				run.Count("installing_thread_state_checked", 1)
+			}
+			if sameBefore && ok && fmt.Sprint(l["prior_err"]) == "" {
+				self, _ := l["self"].(map[string]any)
+				run.Count("loads_judged_after_an_identical_load_without_nnp", 1)
+				if self != nil && fmt.Sprint(self["NoNewPrivs"]) != "1" {
+					run.Violation("nil-with-nnp-requested-but-bit-not-set", fmt.Sprintf("%s: the same filter had been loaded before without NoNewPrivs; this load asked for it and returned nil, but the calling thread (locked by the caller) has NoNewPrivs=%v", desc, self["NoNewPrivs"]), replay)
+					return
+				}
 			}
 			if !ok {
 				sig := "load-fails-with-nnp-requested"
